@@ -236,16 +236,16 @@ theorem multiWorld_false (D : List Var) (h : multiWorld D = false) :
   exact h2 hab
 
 theorem literalBound_false (q : Event) (D : List Var) (h : literalBound q D = false) :
-    ∀ p ∈ q, ∀ i ∈ p.1.ivs, i.name ∈ D.map (·.name) → i.name ∈ q.map (·.1.name) := by
-  intro p hp i hi hD
+    ∀ p ∈ q, ∀ i ∈ p.1.ivs, i.star = false → i.name ∈ D.map (·.name) → i.name ∈ q.map (·.1.name) := by
+  intro p hp i hi hstar hD
   unfold literalBound at h
   rw [List.any_eq_false] at h
   have h1 := h p hp
   simp only [Bool.not_eq_true] at h1
   rw [List.any_eq_false] at h1
   have h2 := h1 i hi
-  simp only [Bool.and_eq_true, decide_eq_true_eq, not_and, not_not] at h2
-  exact h2 hD
+  simp only [Bool.and_eq_true, Bool.not_eq_eq_eq_not, Bool.not_true, decide_eq_true_eq, not_and, not_not] at h2
+  exact h2 ⟨hstar, hD⟩
 
 theorem outcomeParentValue_false (g : MG Name) (q : Event) (D : List Var) (h : outcomeParentValue g q D = false) :
     ∀ w ∈ D, ∀ p, g.DiEdge p w.name → p ∉ subNames w → p ∈ D.map (·.name) →
@@ -286,7 +286,7 @@ structure QCtx (g : MG Name) (q : Event) (D : List Var) : Prop where
   self : ∀ p ∈ q, p.1.name ∉ subNames p.1
   cons : ∀ p ∈ q, ConsistentSubs p.1.ivs
   single : ∀ a ∈ D, ∀ b ∈ D, a.name = b.name → a = b
-  lit : ∀ p ∈ q, ∀ i ∈ p.1.ivs, i.name ∈ D.map (·.name) → i.name ∈ q.map (·.1.name)
+  lit : ∀ p ∈ q, ∀ i ∈ p.1.ivs, i.star = false → i.name ∈ D.map (·.name) → i.name ∈ q.map (·.1.name)
   opv : ∀ w ∈ D, ∀ p, g.DiEdge p w.name → p ∉ subNames w → p ∈ D.map (·.name) →
     ∀ it ∈ q, it.1.name = p → it.2 = some ⟨p, false⟩
   /-- no member sits on a self-loop of `g` (`get_counterfactual_factors` rejects the query otherwise) -/
